@@ -18,6 +18,7 @@ from fractions import Fraction
 import common
 from common import enc, dec, err_kind
 from props import c04_hist as H
+from props import c04_cx as X
 
 ID = "C04"
 RULE = ("exhaustive small universe (coefficients in {-1,0,1,2}, lb<=3, la<=3) plus random shapes of order 0..8 "
@@ -160,19 +161,24 @@ def _var(node):
 
 
 def _fold(node):
-    """constant expression -> exact Fraction (literals, unary +/-, '/' and '*' of constants)"""
-    if isinstance(node, ast.Constant) and isinstance(node.value, (int, float)) and not isinstance(node.value, bool):
-        if isinstance(node.value, float) and (node.value != node.value or node.value in (float("inf"), float("-inf"))):
+    """constant expression -> exact Gaussian rational X.G (literals: int of any size, float, imaginary, bool;
+    unary +/-; '/' of constants ('1/3'); '+' / '-' of constants as python prints a complex: '(1+2j)', '(-0-1j)')"""
+    if isinstance(node, ast.Constant) and isinstance(node.value, (bool, int, float, complex)):
+        g = X.g_of(int(node.value) if isinstance(node.value, bool) else node.value)
+        if g is None:
             raise Unparsed("non-finite literal")
-        return Fraction(node.value)
+        return g
     if isinstance(node, ast.UnaryOp) and isinstance(node.op, (ast.USub, ast.UAdd)):
         v = _fold(node.operand)
         return -v if isinstance(node.op, ast.USub) else v
     if isinstance(node, ast.BinOp) and isinstance(node.op, ast.Div):
         d = _fold(node.right)
-        if d == 0:
+        if d.is_zero():
             raise Unparsed("constant division by zero")
         return _fold(node.left) / d
+    if isinstance(node, ast.BinOp) and isinstance(node.op, (ast.Add, ast.Sub)):
+        l, r = _fold(node.left), _fold(node.right)
+        return l + r if isinstance(node.op, ast.Add) else l - r
     raise Unparsed("not a constant: " + ast.dump(node)[:80])
 
 
@@ -190,7 +196,7 @@ def _atom(node):
     if isinstance(node, ast.UnaryOp) and isinstance(node.op, ast.USub) and isinstance(node.operand, ast.Name):
         return ["neg"] + _var(node.operand)
     if isinstance(node, ast.BinOp) and isinstance(node.op, ast.Mult) and isinstance(node.right, ast.Name):
-        return ["mul", enc(_fold(node.left))] + _var(node.right)
+        return ["mul", X.genc(_fold(node.left))] + _var(node.right)
     raise Unparsed("not a summand: " + ast.dump(node)[:100])
 
 
@@ -209,7 +215,7 @@ def _expr(src, node):
         chain = []
         body = node
         while isinstance(body, ast.BinOp) and isinstance(body.op, ast.Div) and _is_const(body.right):
-            chain.append(enc(_fold(body.right)))
+            chain.append(X.genc(_fold(body.right)))
             body = body.left
         chain.reverse()
         if not seg.startswith("("):
@@ -257,7 +263,7 @@ def parse_source(src):
         if loop.target.id != "d0":
             if nm or nd or len(st) != 1 or not isinstance(st[0], ast.Expr) or not isinstance(st[0].value, ast.Yield):
                 raise Unparsed("constant loop shape")
-            return {"kind": "const", "zero": enc(_fold(st[0].value.value))}
+            return {"kind": "const", "zero": X.genc(_fold(st[0].value.value))}
         if len(st) < 2 or not isinstance(st[0], ast.Assign) or len(st[0].targets) != 1 or _var(st[0].targets[0]) != ["m", 0]:
             raise Unparsed("first statement is not m0 = …")
         if not (isinstance(st[1], ast.Expr) and isinstance(st[1].value, ast.Yield)
@@ -382,6 +388,8 @@ def _xs_obj(xs, how):
 def impl(c):
     if c["entry"] == "hist":
         return H.impl(c)
+    if c["entry"] == "gcall":
+        return X.impl(c)
     if c["entry"] == "cascade":
         return impl_cascade(c)
     return impl_call(c)
@@ -482,6 +490,8 @@ def _mem_req(m):
 def request(c):
     if c["entry"] == "hist":
         return H.request(c)
+    if c["entry"] == "gcall":
+        return X.request(c)
     if c["entry"] == "cascade":
         return {"entry": "cascade", "num": [[k, exact(v)] for k, v in c["num"]], "den": [[k, exact(v)] for k, v in c["den"]],
                 "zero": exact(c["zero"]), "xs": [exact(x) for x in c["xs"]], "mems": [_mem_req(m) for m in c["mems"]]}
@@ -627,6 +637,8 @@ def _compare_cascade(c, io, drv):
 def compare(c, io, drv):
     if c["entry"] == "hist":
         return H.compare(c, io, drv)
+    if c["entry"] == "gcall":
+        return X.compare(c, io, drv)
     if c["entry"] == "cascade":
         return _compare_cascade(c, io, drv)
     out = _compare_call(c, io, drv)
@@ -708,6 +720,8 @@ def _short_memory(c, model):
 def nontrivial(c, io):
     if c["entry"] == "hist":
         return H.nontrivial(c, io)
+    if c["entry"] == "gcall":
+        return X.nontrivial(c, io)
     if c["entry"] == "cascade":
         return "err" in io or (bool(io.get("out")) and len(c["mems"]) >= 2)
     return "err" in io or bool(io.get("out"))
@@ -739,6 +753,8 @@ def _d4_prediction(c, model):
 def classify(c, io, drv):
     if c["entry"] == "hist":
         return H.classify(c, io, drv)
+    if c["entry"] == "gcall":
+        return X.classify(c, io, drv)
     if c["entry"] == "cascade":
         ps = _compare_cascade(c, io, drv)
         if "err" in io:
@@ -1077,6 +1093,8 @@ def generate(rng, tier, scale=1):
     # long runs / large orders, then histories (own random streams: the batches above keep their draws)
     cases.extend(_gen_long(random.Random(rng.random()), tier, scale))
     cases.extend(H.generate(random.Random(rng.random()), tier, scale))
+    # coefficient kinds (complex / bool / huge / Fraction / float spellings), constructor and call shapes over Q(i)
+    cases.extend(X.generate(random.Random(rng.random()), tier, scale))
     return cases
 
 
@@ -1087,6 +1105,8 @@ def tally(eng, c, io):
     eng.count("entry", c["entry"] + ("/long" if c.get("long") else ""))
     if c["entry"] == "hist":
         return H.tally(eng, c, io)
+    if c["entry"] == "gcall":
+        return X.tally(eng, c, io)
     if c["entry"] == "cascade":
         eng.count("cascade_stages", len(c["mems"]))
         eng.count("cascade_memories", "+".join(sorted({"none" if m is None else m.get("as", m["kind"]) for m in c["mems"]})) or "-")
@@ -1147,6 +1167,10 @@ def _simplify_num(j):
 def shrink(c):
     if c["entry"] == "hist":
         for d in H.shrink(c):
+            yield d
+        return
+    if c["entry"] == "gcall":
+        for d in X.shrink(c):
             yield d
         return
     if c["entry"] == "cascade":
@@ -1314,6 +1338,10 @@ def _shrink_rest(c):
 
 
 def neighbours(c):
+    if c["entry"] == "gcall":
+        for d in X.neighbours(c):
+            yield d
+        return
     if c["entry"] in ("hist", "cascade") or c.get("long"):
         return
     for side in ("num", "den"):
